@@ -750,7 +750,7 @@ func driveC21(o hx.RunOpts) error {
 	}
 
 	mods := []int{1, 2, 3, 250}
-	n := o.N(400, 4000)
+	n := o.N(400, 8000)
 	for k := 0; k < n; k++ {
 		q := p.Fork()
 		md := mods[q.Intn(len(mods))]
@@ -770,7 +770,7 @@ func driveC21(o hx.RunOpts) error {
 		}
 	}
 	// full blocks and deep overflow
-	n = o.N(6, 60)
+	n = o.N(6, 90)
 	for k := 0; k < n; k++ {
 		q := p.Fork()
 		md := mods[q.Intn(3)]
